@@ -20,6 +20,7 @@ func init() {
 	register(&Rule{Name: "RET.xor", Min: 20, Doc: "functions returning (WarriorData, error) return the zero value with an error and a real value with nil", Run: ruleRetXor})
 	register(&Rule{Name: "ERR.prop", Min: 30, Doc: "no error result of an assembler/loader callee is dropped", Run: ruleErrProp})
 	register(&Rule{Name: "LINE.drop", Min: 2, Doc: "data returned together with a read error (unterminated last line) is processed, not dropped", Run: ruleLineDrop})
+	register(&Rule{Name: "LINE.end", Min: 2, Doc: "a loader stops before the end of the input only at the end marker", Run: ruleLineEnd})
 	register(&Rule{Name: "LINE.skip", Min: 4, Doc: "a loader line is skipped only if empty, a comment, or blank", Run: ruleLineSkip})
 	register(&Rule{Name: "CYCLECHK.dom", Min: 3, Doc: "the EQU cycle check dominates every substitution fixpoint / recursive expansion", Run: ruleCycleChk})
 	register(&Rule{Name: "WIRE.const", Min: 5, Doc: "predefined constants map to the configuration fields they name; parser and compiler agree on the set", Run: ruleWireConst})
@@ -792,6 +793,57 @@ func ruleLineDrop(w *World, r *RuleResult) {
 	d.flush()
 }
 
+// ruleLineEnd: a reader that returns successfully right after reading a line
+// (a break out of the line loop) drops every line that follows.  That is what
+// the end marker is for, and nothing else: the line must have been compared
+// equal to "end" — or be the empty remainder at the end of the input.
+func ruleLineEnd(w *World, r *RuleResult) {
+	d := newDedup(r)
+	for _, fn := range loaderFuncs(w) {
+		paths, err := w.Paths(fn)
+		if err != nil {
+			continue
+		}
+		n := 0
+		for _, p := range paths {
+			if p.End != "ret" || len(p.Ret) == 0 || p.Ret[len(p.Ret)-1].Op != "nil" {
+				continue
+			}
+			var line, rerr *T
+			for i := range p.Events {
+				e := &p.Events[i]
+				if e.Kind == "call" && e.Callee != nil && e.Callee.Pkg != nil && e.Callee.Pkg.Pkg.Path() == "bufio" && e.Res != nil && e.Callee.Signature.Recv() != nil {
+					line = &T{Op: "ext", C: 1, A: []*T{e.Res}}
+					rerr = &T{Op: "ext", C: 2, A: []*T{e.Res}}
+				}
+			}
+			if line == nil {
+				continue // leaves the loop at its head: the input is exhausted
+			}
+			n++
+			lk, ek := line.Key(), rerr.Key()
+			atEnd := hasCond(p, func(a *T, v bool) bool {
+				return a.Op == "eq" && v && ((a.A[1].Op == "str" && a.A[1].S == "end") || (a.A[0].Op == "str" && a.A[0].S == "end"))
+			})
+			exhausted := hasCond(p, func(a *T, v bool) bool {
+				return a.Op == "eq" && !v && a.A[1].Op == "nil" && a.A[0].Key() == ek
+			}) && hasCond(p, func(a *T, v bool) bool {
+				return a.Op == "eq" && v && a.A[1].IsConstVal(0) && stripConv(a.A[0]).Op == "len" && stripConv(a.A[0]).A[0].Key() == lk
+			})
+			key := fmt.Sprintf("%s/stop/%s", fn.Name(), condsKeyShort(p))
+			pos := w.Pos(fn.Pos())
+			if len(p.Conds) > 0 {
+				pos = w.Pos(p.Conds[len(p.Conds)-1].Pos)
+			}
+			d.add(atEnd || exhausted, key, pos, "reading stops here because the line is the end marker (or the input is exhausted)", "the reader returns successfully after a line that is not the end marker: every line after it is dropped silently")
+		}
+		if n == 0 {
+			d.add(false, fn.Name()+"/stop/none", w.Pos(fn.Pos()), "", "no path of the reader stops at an end marker")
+		}
+	}
+	d.flush()
+}
+
 func ruleLineSkip(w *World, r *RuleResult) {
 	d := newDedup(r)
 	for _, fn := range loaderFuncs(w) {
@@ -861,7 +913,22 @@ func ruleLineSkip(w *World, r *RuleResult) {
 				}
 				// len(fields) == 0 where fields derives from the line
 				if a.Op == "eq" && a.A[1].IsConstVal(0) && a.A[0].Op == "len" && a.A[0].A[0].Op == "call" && a.A[0].A[0].S == "strings.Fields" && a.A[0].contains(func(x *T) bool { return x.Key() == lk }) {
-					reason = "blank line"
+					// "no fields" means blank only if nothing but white space was removed before counting
+					// them; where separators were replaced by spaces first, the path must also have
+					// found that none was present
+					removed := ""
+					a.A[0].walk(func(x *T) bool {
+						if x.Op == "call" && (x.S == "strings.ReplaceAll" || x.S == "strings.Replace") && len(x.A) >= 3 && x.A[1].Op == "str" && strings.TrimSpace(x.A[1].S) != "" {
+							removed = x.A[1].S
+						}
+						return true
+					})
+					none := removed == "" || hasCond(p, func(b *T, bv bool) bool {
+						return !bv && b.Op == "call" && strings.HasPrefix(b.S, "strings.Contains") && len(b.A) == 2 && b.A[1].Op == "str" && b.A[1].S == removed && b.A[0].contains(func(x *T) bool { return x.Key() == lk })
+					})
+					if none {
+						reason = "blank line"
+					}
 				}
 			}
 			key := fmt.Sprintf("%s/skip/%s", fn.Name(), condsKeyShort(p))
